@@ -41,6 +41,17 @@ def cases(rng, tier):
                     lines += ["toy.call step", "toy.snap"]
                 c_ = Case("toy-pairs", lines, None, {"n": 5, "words": words + [acc]})
                 yield toygen.as_text_case(c_) if acc else c_
+    # LONG runs: a counting loop that runs thousands of iterations until its counter WRAPS to zero; a program that fills the
+    # whole memory (pc runs up to 0xFFF and wraps)
+    for start, extra in ((0xFFFF - 900, 0), (0xFFFF - 2500, 1)):
+        # loop: LDA 100; INC; STO 100; BRZ 7; ZRO; BRZ 0; (6:) NOP; (7:) LDA 100; STO 101
+        words = [0x1000 | 100, 0x9000, 0x0000 | 100, 0x2000 | 7, 0xB000, 0x2000 | 0, 0xC000, 0x1000 | 100, 0x0000 | 101]
+        lines = ["toy.new", "toy.load " + " ".join([str(len(words))] + [str(w) for w in words] + [f"100:{start}"]), "toy.snap",
+                 "toy.run 3000", "toy.snap", "toy.run 40000", "toy.snap"]
+        yield toygen.as_text_case(Case("toy-long", lines, None, {"n": len(words), "words": words + [start]})) if extra else Case("toy-long", lines, None, {"n": len(words), "words": words + [start]})
+    full = [0x9000] * 4095 + [0x2000 | 5]          # 4095 INC, then BRZ 5 at the last address: not taken, pc wraps past 0xFFF
+    yield Case("toy-long", ["toy.new", "toy.load " + " ".join(["4096"] + [str(w) for w in full]), "toy.snap", "toy.run 4000", "toy.snap", "toy.run 500", "toy.snap"],
+               None, {"n": 4096, "words": [4096]})
     if tier == "thorough":
         for w in range(0, 65536):
             acc = [0, 1, 0xFFFF, 0x8000, 0x1234][w % 5]
@@ -93,9 +104,15 @@ def oracle(c):
     # walk the calls: only whole `step` calls are interpreted here (C20 covers the other styles)
     for (ia, sa), (ib, sb) in zip(snaps, snaps[1:]):
         call = c.lines[ib - 1]
-        if call != "toy.call step":
+        if call == "toy.call step":
+            count = 1
+        elif call.startswith("toy.run "):
+            count = int(call.split()[1])          # `run` with a step budget: whole steps until done
+        else:
             return fails
-        if not halted:
+        for _ in range(count):
+            if halted:
+                break
             w = mem.get(rpc, 0)
             op, a = (w >> 12) & 15, w & 0xFFF
             npc = (rpc + 1) % 4096
